@@ -46,6 +46,9 @@ def setup_corpus(root, n, rng):
         p = os.path.join(root, "raw", "s%d.npy" % k)
         np.save(p, (nprng.randn(300 + 37 * k) * 100).astype(np.float32))
         lines.append("%s %s" % (name(k), p))
+    # (empty lines are legal in a map file and are not utterances: they take no seed offset)
+    lines[1:1] = [""]
+    lines[4:4] = ["", ""]
     with open(os.path.join(root, "map"), "w") as f:
         f.write("\n".join(lines) + "\n")
     with open(os.path.join(root, "pre.json"), "w") as f:
@@ -162,10 +165,13 @@ def computer_state_does_not_leak(run, root):
     for k, n in enumerate((2000, 20, 2400, 7, 1700, 31, 900)):
         u = "s%d" % k
         x = (rng_.randn(n) * 100).astype(np.float32)
-        p = os.path.join(d, "raw", u + ".npy")
-        np.save(p, x)
+        # (s2 .. s5 live in ONE keyed archive, entry = utterance id: the same path, a different signal per line)
+        p = os.path.join(d, "raw", "shared.npz" if 2 <= k <= 5 else u + ".npy")
+        if not p.endswith(".npz"):
+            np.save(p, x)
         sigs[u] = x
         lines.append("%s %s" % (u, p))
+    np.savez(os.path.join(d, "raw", "shared.npz"), **{u: sigs[u] for u in ("s2", "s3", "s4", "s5")})
     with open(os.path.join(d, "map"), "w") as f:
         f.write("\n".join(lines) + "\n")
     want = {}
